@@ -4,6 +4,7 @@
 #include "StringDictionary.h"
 #include "StringDictionaryHASHRPDACBlocks.h"
 #include "sim/gen.h"
+#include "sim/simthread.h"
 #include <istream>
 
 enum Kind { K_PFC = 0, K_RPFC, K_HTFC, K_HHTFC, K_RPHTFC, K_RPDAC, K_HASHHF, K_HASHRPF, K_HASHUFFDAC, K_HASHRPDAC, K_BLOCKS, K_FMINDEX, K_XBW, K_COUNT };
@@ -104,7 +105,15 @@ static StringDictionary *build_dict(int kind, const std::vector<std::string> &v,
   case K_HASHRPF: d = new StringDictionaryHASHRPF(new IteratorDictStringPlain(buf, len), (uint)len, p.overhead); break;
   case K_HASHUFFDAC: d = new StringDictionaryHASHUFFDAC(new IteratorDictStringPlain(buf, len), (uint)len, p.overhead); break;
   case K_HASHRPDAC: d = new StringDictionaryHASHRPDAC(new IteratorDictStringPlain(buf, len), (uint)len, p.overhead); break;
-  case K_BLOCKS: d = new StringDictionaryHASHRPDACBlocks(new IteratorDictStringPlain(buf, len), len, p.overhead, p.cut, p.threads); break;
+  case K_BLOCKS: {
+    // the parallel build runs under the thread simulator with one fixed schedule: the history harness studies
+    // call order, streams and heap contents -- its worker processes must stay a pure function of the seed
+    // (schedules of this build are the business of blocks_sim, C09/C11)
+    bool simulate = !sim_active(); // also for threads=1: the pool then has one worker next to the constructing thread
+    if (simulate) { SimConfig sc; sc.strategy = ST_LOWFIRST; sc.step_cap = 2000000; sc.fair_after = 2000000; sc.reap_exits = true; sim_begin(&sc); }
+    d = new StringDictionaryHASHRPDACBlocks(new IteratorDictStringPlain(buf, len), len, p.overhead, p.cut, p.threads);
+    if (simulate) { SimResult sr; sim_end(&sr); }
+    break; }
   case K_FMINDEX: { IteratorDictStringPlain *it = new IteratorDictStringPlain(buf, len); d = new StringDictionaryFMINDEX(it, p.sparse, (uint)p.bs, (uint)p.bwt); delete it; break; }
   case K_XBW: { IteratorDictStringPlain *it = new IteratorDictStringPlain(buf, len - 1); d = new StringDictionaryXBW(it); delete it; break; }
   }
